@@ -37,6 +37,7 @@ VARIANTS = {
     'null-model-argument': 'select * from int1.t1 as t join mindsdb.pred as m where {W}',
     'zero-model-argument': 'select * from int1.t1 as t join mindsdb.pred as m where {W}',
     'constant-first': 'select * from int1.t1 as t join mindsdb.pred as m where {WF}',
+    'constant-first-model-too': 'select * from int1.t1 as t join mindsdb.pred as m where {WFM}',
     'constant-first-two-tables': 'select * from int1.t1 as t join int2.t2 as u on t.a = u.a join mindsdb.pred as m where {WF}',
     'cte-named-like-model': 'with pred as (select a, b from int1.t3) select * from int1.t1 as t join mindsdb.pred as m where {W}',
     'cte-named-like-model-used': 'with pred as (select a, b from int1.t3) select * from int1.t1 as t join pred as c on c.a = t.a '
@@ -66,19 +67,19 @@ def atoms():
 MIRROR = {'=': '=', '>': '<', '<': '>', '>=': '<=', '<=': '>=', '!=': '!=', '<>': '<>'}
 
 
-def render(w, flip=False):
+def render(w, flip=False, flip_model=False):
     """flip: atoms on TABLE columns are written constant-first with the mirrored operator (`2 < t.a` for `t.a > 2`)."""
     k = w['k']
     if k == 'atom':
         tab, col, op, c = atoms()[w['id']]
         cs = 'NULL' if c is None else '%d' % c
         q = CUR['talias'] if tab == 't' else tab           # the table's alias in this variant
-        if flip and tab == 't':
+        if (flip and tab == 't') or (flip_model and tab == 'm'):
             return '%s %s %s.%s' % (cs, MIRROR[op], q, col)
         return '%s.%s %s %s' % (q, col, op, cs)
     if k == 'not':
-        return 'not (%s)' % render(w['a'], flip)
-    return '(%s %s %s)' % (render(w['a'], flip), k, render(w['b'], flip))
+        return 'not (%s)' % render(w['a'], flip, flip_model)
+    return '(%s %s %s)' % (render(w['a'], flip, flip_model), k, render(w['b'], flip, flip_model))
 
 
 def match_atom(node, with_alias):
@@ -144,7 +145,7 @@ def _case(args):
     if variant.startswith('zero-model-argument'):
         CUR['atoms'][4] = ('m', 'z', '=', 0)
         CUR['atoms'][1] = ('t', 'b', '=', 0)
-    sql = VARIANTS[variant].replace('{WF}', render(w, True)).replace('{W}', render(w))
+    sql = VARIANTS[variant].replace('{WFM}', render(w, True, True)).replace('{WF}', render(w, True)).replace('{W}', render(w))
     out = {'sql': sql, 'variant': variant}
     try:
         plan = plan_query(parse_sql(sql, 'mindsdb'), **plancorpus.catalog('legacy-dict-targets' if variant.startswith('legacy-catalog:') else 'dicts'))
